@@ -108,6 +108,65 @@ var c17SkipRules = []string{"sub/dir/", "sub/", "dir/", "sub/axlua.lua", "axlua"
 
 // c17Skipped: the documented meaning of an analysis-ignore rule: a rule ending in .lua names files (substring
 // or regular expression of the path), any other rule names folders (matched against the folder part)
+// fixed world (every tier): the switch of the argument-count check (type 10) and the switch of the argument-type check
+// (type 24, opened by a configuration file only) are two switches: each silences its own type and nothing else
+func c17CallParamSwitches(res *lib.Result) error {
+	src := "---@param n number\n---@param s string\nfunction gtakes(n, s) end\nfunction gcaller()\n  gtakes(\"str\", 1)\n  gtakes(1)\nend\n"
+	view := func(cfg string) ([]string, error) {
+		dir := lib.ScratchDir("c17cp")
+		defer os.RemoveAll(dir)
+		if err := lib.WriteWorkspace(dir, map[string]string{"luahelper.json": cfg, "b.lua": src}); err != nil {
+			return nil, err
+		}
+		sess, err := lib.StartSession(dir, lib.AllChecksOptions())
+		if err != nil {
+			return nil, err
+		}
+		defer sess.Close()
+		var out []string
+		for _, d := range sess.DiagView()["b.lua"] {
+			if t := d.ErrType(); t == 10 || t == 24 {
+				out = append(out, fmt.Sprintf("t%d@%s", t, locOfRange(d.Range)))
+			}
+		}
+		sort.Strings(out)
+		return out, nil
+	}
+	base, err := view("{\"ShowWarnFlag\":1,\"OpenErrorTypes\":[24]}")
+	if err != nil {
+		return err
+	}
+	res.Count("call-param-switches", true)
+	res.Dist("e2e.call-param-switches")
+	has := func(l []string, pre string) bool {
+		for _, x := range l {
+			if strings.HasPrefix(x, pre) {
+				return true
+			}
+		}
+		return false
+	}
+	if !has(base, "t10@") || !has(base, "t24@") {
+		return fmt.Errorf("the call-parameter world does not trigger both types 10 and 24: %v", base)
+	}
+	for _, off := range []int{10, 24} {
+		got, err := view(fmt.Sprintf("{\"ShowWarnFlag\":1,\"OpenErrorTypes\":[24],\"IgnoreErrorTypes\":[%d]}", off))
+		if err != nil {
+			return err
+		}
+		var want []string
+		for _, x := range base {
+			if !strings.HasPrefix(x, fmt.Sprintf("t%d@", off)) {
+				want = append(want, x)
+			}
+		}
+		if strings.Join(got, " ") != strings.Join(want, " ") {
+			res.AddViolation("impl-vs-spec", fmt.Sprintf("with type %d switched off (IgnoreErrorTypes) the diagnostics of types 10 / 24 are %v; with both on they are %v, so %v is expected", off, got, base, want), "-- b.lua\n"+src, false)
+		}
+	}
+	return nil
+}
+
 func c17Skipped(rule, rel string) bool {
 	target := rel
 	if !strings.HasSuffix(rule, ".lua") {
@@ -631,5 +690,5 @@ func runC17(res *lib.Result, tier string, seed int64, args []string) error {
 			res.AddViolation("impl-vs-spec", fmt.Sprintf("diagnostics under the configuration differ from the documented filter of the all-enabled run: missing %v, extra %v", missing, extra), caseText, false)
 		}
 	}
-	return nil
+	return c17CallParamSwitches(res)
 }
